@@ -625,7 +625,7 @@ def _(c):
                         tail_blank(s, L, n, e + 1),
                         fed == ents_signed(s, L, g, h + 1))
         return z3.And(z3.Length(s.self.entries) == z3.Length(fed), z3.Or(unsigned, signed))
-    c.ensures('entries-are-exactly-the-signed-cleartext-or-the-whole-plain-file', normal)
+    c.ensures('entries-are-exactly-the-signed-cleartext-or-the-whole-plain-file', normal, internal=True)
 
     def signed_flag(s):
         calls = s.ghost('verify_calls', [])
@@ -634,7 +634,7 @@ def _(c):
         if not calls:
             return flag == OB.some(z3.BoolVal(False))
         return z3.And(flag == OB.some(z3.BoolVal(True)), s.verify_openpgp, s.cur.state == ST_POST)
-    c.ensures('signed-flag-only-after-successful-verification', signed_flag, props=['C04', 'C05'])
+    c.ensures('signed-flag-only-after-successful-verification', signed_flag, props=['C04', 'C05'], internal=True)
 
     def verified_text(s):
         calls = s.ghost('verify_calls', [])
@@ -642,7 +642,7 @@ def _(c):
             return z3.Or(z3.Not(s.verify_openpgp), s.cur.state == ST_DATA)
         arg, heap, pc = calls[-1]
         return z3.And(len(calls) == 1, arg.content.t == join_lines(s, s.seq1, s.e + 1, s.b))
-    c.ensures('verification-gets-exactly-BEGIN-through-END', verified_text, props=['C04', 'C05'])
+    c.ensures('verification-gets-exactly-BEGIN-through-END', verified_text, props=['C04', 'C05'], internal=True)
 
     def unsigned_data(s):
         L = s.seq1
@@ -650,7 +650,19 @@ def _(c):
         st = s.cur.state
         return z3.Or(z3.And(st == ST_DATA, L[i] == BEGIN, z3.Length(s.fed) > 0),
                      z3.And(st == ST_POST, z3.Length(toks(L[i])) > 0))
-    c.exc_ensures('unsigned-data-only-outside-the-signed-block', 'ManifestUnsignedData', unsigned_data)
+    c.exc_ensures('unsigned-data-only-outside-the-signed-block', 'ManifestUnsignedData', unsigned_data, internal=True)
+
+    def modifies(it, bound):
+        ctx = it.ctx
+        me = bound['self']
+        for f in ('entries', 'openpgp_signed', 'openpgp_signature'):
+            ty = it.engine.field_type(f)
+            ctx.heap[f] = z3.Store(ctx.field_array(f), me.t, ctx.fresh_const('load!' + f, ty.sort()))
+    c.modifies(modifies)
+    c.ensures('unverified-load-is-never-signed',
+              lambda s: z3.Implies(z3.Not(s.verify_openpgp),
+                                   s.self.openpgp_signed == opt_sort(z3.BoolSort()).some(z3.BoolVal(False))),
+              props=['C05', 'C04'])
 
     def not_signed_on_failure(s):
         OB = opt_sort(z3.BoolSort())
